@@ -1,0 +1,11 @@
+//go:build verif
+
+package pubsubmon
+
+import "github.com/ipfs/ipfs-cluster/monitor/metrics"
+
+// VerifStore exposes the monitor's metric store to the C09 harness.
+func (mon *Monitor) VerifStore() *metrics.Store { return mon.metrics }
+
+// VerifChecker exposes the monitor's checker to the C09 harness.
+func (mon *Monitor) VerifChecker() *metrics.Checker { return mon.checker }
